@@ -194,7 +194,7 @@ def finish(chk):
         "violations": len(new_violations),
     }
     os.makedirs(EVIDENCE_DIR, exist_ok=True)
-    if not chk.only_key:
+    if not chk.only_key and not os.environ.get("VERIF_NO_EVIDENCE"):
         with open(os.path.join(EVIDENCE_DIR, chk.pid + ".json"), "w") as f:
             json.dump(ev, f, indent=1, default=str)
     print("SUMMARY property=%s tier=%s obligations=%d discharged=%d undecided=%d "
